@@ -128,6 +128,15 @@ Theorem C02_round_keys : forall key r h, length key = 8%nat -> bytes_ok key = tr
 Proof. exact round_keys. Qed.
 Print Assumptions C02_round_keys.
 
+(* dEncrypt, one step: for ALL 32-bit halves L, R (FIPS bit q at word bit q mod 32: [hw]), ALL 48-bit round keys K in
+   placed form and ALL 12 salt bits (bits 0..5 in E0, bits 6..11 in E1 >> 4), the Go step returns L xor f(R, K) where f
+   is the textbook cipher function with crypt(3)'s salted E (salt bit i swaps E bits i and i+24), S1..S8 and P. *)
+Theorem C02_round_is_feistel : forall sb Lb Rb K,
+  length sb = 12%nat -> length Lb = 32%nat -> length Rb = 32%nat -> length K = 48%nat ->
+  d_encrypt (hw Lb) (hw Rb) (E0_of sb) (E1_of sb) (place 0 K) (place 1 K) = hw (xorl Lb (feistel sb Rb K)).
+Proof. exact d_encrypt_is_feistel. Qed.
+Print Assumptions C02_round_is_feistel.
+
 (* PARTIAL. Full claim: forall pw and alphabet salts, fcrypt pw salt = Ok (h ++ [0]) with crypt pw salt = Some h.
    Proved conjuncts: same key block and same salt bits go in; SPtrans, skb, shifts2, cov_2char are the FIPS tables;
    the head of desSetKey is PC1 and the tail of body is FP; the equality holds on VECTORS (kernel evaluation).
